@@ -259,6 +259,20 @@ def _sets(T):
   return out
 
 
+def predecessor(T):
+  """The description of last window's model of the same site: same ids, same shape, but without cumulative and aggregate bounds."""
+  import copy
+  T0 = copy.deepcopy(T)
+  for x in nodes(T0):
+    if x.get('sbounds'):
+      x['sbounds'], x['sb_kind'] = None, 'none'
+    L = x.get('leaf')
+    if L and L.get('cbounds') and L['cls'] != 'CDevice2':
+      L['cbounds'], L['cb_kind'] = None, 'none'
+      L.pop('recb', None)
+  return T0
+
+
 def standalone_use(d, key):
   """For a deterministic half of the sub-devices: the part is used and reported on its own (enumerated, mapped, its bounds and
   constraints read, costed) BEFORE it is wrapped in an adaptor or put into a set - the previous window's stand-alone solve of a
